@@ -1,7 +1,7 @@
 import Cactus.Lemmas.StdSim
 import Cactus.Lemmas.Basic
-import Cactus.Props.C03
-import Cactus.Props.C14
+import Cactus.Lemmas.PayAsYouGo        -- `run_noAdopt_no_trace` (last example)
+import Cactus.Lemmas.Shared.OneStep   -- `Shared.rcDrop_last_handle`, `Shared.rcDrop_emptyTable_log`
 /-!
 # C07 — without adoptions, behaves exactly like `std::rc::Rc` / `Weak`
 
@@ -30,11 +30,11 @@ theorem C07_drop_shared (s : State) (o : Nat) (ob : Obj) (n : Nat)
 theorem C07_drop_last (s : State) (o : Nat) (ob : Obj) (v : Val)
     (hc : s.cell o = some ob) (hs : ob.strong = .cnt 1) (hl : ob.links = some []) (hv : ob.value = some v) :
     (s.rcDrop o).stack = .dropVal v :: .finishSingle o :: s.stack :=
-  (C03_last_handle s o ob v hc hs hl hv).1
+  (Shared.rcDrop_last_handle s o ob v hc hs hl hv).1
 
 /-- no reachability machinery runs for such an object -/
 theorem C07_no_trace (s : State) (o : Nat) (ob : Obj) (hc : s.cell o = some ob) (hl : ob.links = some []) :
-    (s.rcDrop o).log = s.log := C14_drop_no_trace s o ob hc hl
+    (s.rcDrop o).log = s.log := Shared.rcDrop_emptyTable_log s o ob hc hl
 
 /-- `new` creates an object with an empty table, and no operation other than `adopt`/`link` ever
 inserts into a table -/
@@ -111,9 +111,10 @@ example : (run sharedApiHistory).err = none ∧ (stdRun sharedApiHistory).err = 
        .destroyed 1, .ret 0, .freed 3, .ret 1, .destroyed 3, .freed 1] := by
   decide +kernel
 
-/-- and no link table was ever touched, no trace ran (`C14_program_without_adoptions_never_traces`
+/-- and no link table was ever touched, no trace ran (`run_noAdopt_no_trace` of
+`Cactus.Lemmas.PayAsYouGo.NoAdopt`, the lemma behind `C14_program_without_adoptions_never_traces`,
 applies too: the shared API contains no `adopt`/`link`) -/
 example : ∀ e ∈ (run sharedApiHistory).log, ∀ o v p, e ≠ Ev.traced o v p :=
-  C14_program_without_adoptions_never_traces sharedApiHistory (by decide)
+  run_noAdopt_no_trace sharedApiHistory (by decide)
 
 end Cactus
